@@ -449,6 +449,41 @@ def same_id_cases():
     return True
 
 
+def link_compatibility_cases():
+    """real links against requests (oriented from, oriented to, overlap): stored overlap unspecified / specified, request overlap
+    unspecified / equal / the complement / different, request in the direct form, the complement form or another one"""
+    import gfapy
+    inv = {"+": "-", "-": "+"}
+    def compl(c):
+        import re
+        return "*" if c == "*" else "".join("%s%s" % (n, {"I": "D", "D": "I"}.get(o, o)) for n, o in reversed(re.findall(r"(\d+)([MIDP])", c)))
+    for sov in ("*", "2M1I", "3M"):
+        for (a, oa, b, ob) in (("x", "+", "y", "-"), ("x", "+", "x", "+"), ("x", "+", "x", "-")):
+            l = gfapy.Line("L\t%s\t%s\t%s\t%s\t%s" % (a, oa, b, ob, sov))
+            forms = {"direct": (a, oa, b, ob), "complement": (b, inv[ob], a, inv[oa]), "other": (a, inv[oa], b, ob), "swapped": (b, ob, a, oa)}
+            for fname, (ra, roa, rb, rob) in forms.items():
+                for rov in (None, "*", "2M1I", "1D2M", "3M", "4M"):
+                    rf, rt = gfapy.OrientedLine(ra, roa), gfapy.OrientedLine(rb, rob)
+                    unspecified = sov == "*" or rov in (None, "*")
+                    is_direct = (ra, roa, rb, rob) == (a, oa, b, ob)
+                    is_compl = (ra, roa, rb, rob) == (b, inv[ob], a, inv[oa])
+                    want_d = is_direct and (unspecified or rov == sov)
+                    want_c = is_compl and (unspecified or compl(rov) == sov)
+                    ov = gfapy.Alignment(rov if rov else "*", version="gfa1")
+                    got_d = bool(l.is_compatible_direct(rf, rt, ov))
+                    got_c = bool(l.is_compatible_complement(rf, rt, ov))
+                    got = bool(l.is_compatible(rf, rt, rov))
+                    got_nc = bool(l.is_compatible(rf, rt, rov, allow_complement=False))
+                    what = "%s against request %s%s -> %s%s overlap %s (%s form)" % (l, ra, roa, rb, rob, rov, fname)
+                    if got_d != want_d:
+                        return "is_compatible_direct: %s: %s, expected %s" % (what, got_d, want_d)
+                    if got_c != want_c:
+                        return "is_compatible_complement: %s: %s, expected %s" % (what, got_c, want_c)
+                    if got != (want_d or want_c) or got_nc != want_d:
+                        return "is_compatible: %s: %s / without complement %s, expected %s / %s" % (what, got, got_nc, want_d or want_c, want_d)
+    return True
+
+
 def path_link_direction_cases():
     """paths over stored links in direct and complement form (distinct segments, self links, hairpins with a CIGAR that is not its own
     complement), link read before the path: the recorded link is the stored one and the direction is '-' exactly for the complement form;
